@@ -550,6 +550,8 @@ class LabelRows(Filter[Iterable[Union[Dense,Sparse]],Iterable[Union[Dense,Sparse
 
         if isinstance(first,Dense):
             ind = first.headers[label] if isinstance(label,str) else label
+            #the parts of a labelled row work with the position counted from the front
+            if ind < 0: ind += len(first)
             return map(LabelDense, rows, repeat(ind), repeat(tipe))
         else:
             return map(LabelSparse, rows, repeat(label), repeat(tipe))
